@@ -994,7 +994,7 @@ fn passes(ctx: &Ctx) -> Vec<Pass> {
     v.push(Pass { name: "deep-comp-reopen", vars: deep_vars, alphabet: deep_alpha, max_ops: if q { 3 } else { 4 }, maints: REOPENS.to_vec(), wals: both.clone(), comp: true, pairs: false, pos0_upto: 0 });
     if !q {
         // two maintenance ops (every ordered pair at positions p1 <= p2)
-        v.push(Pass { name: "pairs", vars: vec![Var::PkIdx, Var::Auto, Var::Big], alphabet: full_alphabet(), max_ops: 2, maints: ALL_MAINT.to_vec(), wals: both, comp: true, pairs: true, pos0_upto: 1 });
+        v.push(Pass { name: "pairs", vars: vec![Var::PkIdx, Var::Auto], alphabet: reduced_alphabet(), max_ops: 2, maints: ALL_MAINT.to_vec(), wals: both, comp: true, pairs: true, pos0_upto: 1 });
     }
     v
 }
@@ -1156,7 +1156,7 @@ impl Check for C04 {
         let mut s = Spec::new(
             PROP,
             "model_checking",
-            "a case is one (history, WAL on/off, maintenance combo) execution compared with its twin that runs the same history without maintenance. History = CREATE TABLE t variant (no PK / INT PK / PK + secondary index / AUTO_INCREMENT PK / PK with 1.5 KB TEXT values) followed by every sequence of <= d ops over the alphabet {INSERT k, 2-row INSERT, UPDATE by key, UPDATE all, DELETE by key, DELETE all, TRUNCATE, CREATE INDEX, ALTER ADD COLUMN, INSERT without id, BEGIN..COMMIT around a write, CREATE TABLE u (AUTO_INCREMENT), INSERT INTO u}, keys in {1,2,3}; maintenance op in {checkpoint(), PRAGMA wal_checkpoint, drop+open, close()+open, arm auto-checkpoint (WAL on)} inserted at EVERY position (thorough: also every ordered pair for d<=2). Depth-first over the history tree; a combo that diverged on a prefix is not extended. Distinct = distinct (history, wal, combo); non-trivial = history has at least one op after CREATE. states = history prefixes executed, transitions = statements + maintenance ops executed on the real Database.",
+            "a case is one (history, WAL on/off, maintenance combo) execution compared with its twin that runs the same history without maintenance. History = CREATE TABLE t variant (no PK / INT PK / PK + secondary index / AUTO_INCREMENT PK / PK with 1.5 KB TEXT values) followed by every sequence of <= d ops over the alphabet {INSERT k, 2-row INSERT, UPDATE by key, UPDATE all, DELETE by key, DELETE all, TRUNCATE, CREATE INDEX, ALTER ADD COLUMN, INSERT without id, BEGIN..COMMIT around a write, CREATE TABLE u (AUTO_INCREMENT), INSERT INTO u}, keys in {1,2,3}; maintenance op in {checkpoint(), PRAGMA wal_checkpoint, drop+open, close()+open, arm auto-checkpoint (WAL on)} inserted at EVERY position (thorough: also every ordered pair of maintenance ops for d<=2 over a reduced alphabet). Depth-first over the history tree; a combo that diverged on a prefix is not extended. Distinct = distinct (history, wal, combo); non-trivial = history has at least one op after CREATE. states = history prefixes executed, transitions = statements + maintenance ops executed on the real Database.",
         );
         s.assumptions = &[
             "differential oracle: twin database driven with the same statements minus the maintenance ops; no reference semantics",
